@@ -226,7 +226,8 @@ Record oracles := mkO {
   find_cuts_pure : res action_names -> func_table -> list string -> args_fc -> tape -> res_fc ;
   (* the coefficient lists (QPDBasis.coeffs) of the bases of the cut gates of the problem, one list per basis *)
   ge_coeffs : args_ge -> list (list Q) ;
-  (* weights.py:290-372 below the all-exact branch: does control reach _populate_samples (np.random.choice)? *)
+  (* weights.py:275-372 whenever the all-exact branch is not certainly taken (see clearly_all_exact): does control reach
+     _populate_samples (np.random.choice)?  Includes the outcome of the float comparison inside the rounding margin. *)
   tail_reaches_sampler : args_ge -> Q -> bool ;
   (* O-choice: np.random.choice on the GLOBAL RandomState consumes state *)
   np_advance : rng_state -> args_ge -> Q -> rng_state ;
@@ -265,11 +266,22 @@ Definition ns_valid (ns : nsamples) : bool :=
 
 Definition smallest_probability (a : args_ge O) : option Q := prod_min_nonzero (ge_coeffs O a).
 
+(* The code compares two binary64 numbers: np.prod(...) >= 1/num_samples.  The model decides in exact rationals and
+   therefore only where the decision is robust against rounding: the all-exact branch is CERTAINLY taken when the exact
+   smallest probability exceeds the exact threshold by the relative margin 2^-40 (k factors and one reciprocal, each
+   rounded to 53 bits, err by a relative 2^-53(2k+1) << 2^-40).  Inside the margin and below the threshold the model
+   makes no claim: the oracle tail_reaches_sampler decides (e.g. five cx bases, num_samples = 7776 = 6^5: exactly on the
+   boundary in Q, but the float product is < the float reciprocal and the code samples).  threshold 0 (num_samples = inf)
+   has margin 0. *)
+Definition float_margin : Q := (1 # 1099511627776)%Q.      (* 2^-40 *)
+
+Definition clearly_all_exact (t p : Q) : bool := Qle_bool (t * (1 + float_margin))%Q p.
+
 Definition reaches_sampler (a : args_ge O) (ns : nsamples) : bool :=
   if negb (ns_valid ns) then false
   else match smallest_probability a with
        | None => false                       (* ValueError out of np.min: refused before any sampling *)
-       | Some p => if Qle_bool (threshold ns) p then false
+       | Some p => if clearly_all_exact (threshold ns) p then false
                    else tail_reaches_sampler O a (threshold ns)
        end.
 
@@ -326,7 +338,15 @@ Fixpoint trace (g : gstate) (h : list event) : list (gstate * option result) :=
       (g', match e with Call c => Some (snd (step g c)) | Perturb _ _ => None end) :: trace g' r
   end.
 
+(* histories made of calls of the three classes only *)
+Definition exact_event (e : event) : bool :=
+  match e with Call c => exact_class c | Perturb _ _ => false end.
+
 End Process.
+
+(* a registry as define_action builds it: distinct keys, every key is the name of the action stored under it *)
+Definition wf_registry (an : action_names) : Prop :=
+  NoDup (map fst (action_dict an)) /\ map a_name (map snd (action_dict an)) = map fst (action_dict an).
 
 Arguments Call {O} c.
 Arguments Perturb {O} np py.
